@@ -1,1 +1,22 @@
+//! Facade for the UPDATE -> route explosion (property C04).
+//!
+//! `explode_announcements` / `explode_withdrawals` are `pub(crate)`; the
+//! wrappers below call them unchanged.
+use crate::payload::RotondaRoute;
+use routecore::bgp::message::UpdateMessage;
+use routecore::bgp::ParseError;
+use routecore::Octets;
+
+pub fn explode_announcements(
+    bgp_update: &UpdateMessage<impl Octets>,
+) -> Result<Vec<RotondaRoute>, ParseError> {
+    crate::roto_runtime::types::explode_announcements(bgp_update)
+}
+
+pub fn explode_withdrawals(
+    bgp_update: &UpdateMessage<impl Octets>,
+) -> Result<Vec<RotondaRoute>, ParseError> {
+    crate::roto_runtime::types::explode_withdrawals(bgp_update)
+}
+
 pub use crate::units::bgp_tcp_in::verif::*;
